@@ -11,6 +11,7 @@
 
 #include <cstdint>
 #include <cstring>
+#include <limits>
 #include <optional>
 #include <string>
 #include <vector>
@@ -35,6 +36,15 @@ inline bool isControlFrame(WsOpcode op)
   return op == WsOpcode::CLOSE || op == WsOpcode::PING || op == WsOpcode::PONG;
 }
 
+/// \brief Outcome of WebSocketFrame::parse().
+enum class WsParseStatus : std::uint8_t
+{
+  Complete,      ///< a frame was returned; `consumed` bytes belong to it
+  Incomplete,    ///< a valid frame may still result: more bytes are needed
+  ProtocolError, ///< the bytes can never become a valid frame (fail with 1002)
+  TooLarge       ///< the header declares a payload beyond maxPayload (fail with 1009)
+};
+
 /// \brief Parsed WebSocket frame.
 struct WebSocketFrame
 {
@@ -45,11 +55,27 @@ struct WebSocketFrame
   std::vector<std::uint8_t> payload;
 
   /// \brief Parse a frame from raw bytes.
-  /// Returns nullopt if the buffer is incomplete. Sets consumed to bytes used.
+  /// Returns nullopt if the buffer is incomplete or can never become a valid
+  /// frame; use the overload with a WsParseStatus to tell the two apart (a
+  /// caller that keeps buffering on nullopt must). Sets consumed to bytes used.
   static std::optional<WebSocketFrame> parse(core::BufferView data,
                                              std::size_t& consumed)
   {
+    WsParseStatus status = WsParseStatus::Incomplete;
+    return parse(data, consumed, status);
+  }
+
+  /// \brief Parse a frame from raw bytes and say why no frame was returned.
+  /// \param status Complete / Incomplete / ProtocolError / TooLarge. The last
+  ///        two are decided from the header alone, before any payload arrived,
+  ///        so the caller never has to buffer towards a frame it will reject.
+  /// \param maxPayload largest payload length the caller accepts for one frame.
+  static std::optional<WebSocketFrame> parse(
+    core::BufferView data, std::size_t& consumed, WsParseStatus& status,
+    std::uint64_t maxPayload = std::numeric_limits<std::uint64_t>::max())
+  {
     consumed = 0;
+    status = WsParseStatus::Incomplete;
     if (data.size() < 2)
     {
       return std::nullopt;
@@ -64,12 +90,9 @@ struct WebSocketFrame
     std::uint8_t rsv = (byte0 >> 4) & 0x07;
     if (rsv != 0)
     {
-      // RSV bits set without extension — protocol error
-      // Return a frame with opcode that signals error to caller
-      frame.opcode = static_cast<WsOpcode>(byte0 & 0x0F);
-      frame.payload.clear();
-      consumed = data.size(); // consume all to prevent re-parse
-      return frame; // caller checks RSV via the raw byte if needed
+      // RSV bits set without a negotiated extension (RFC 6455 Section 5.2)
+      status = WsParseStatus::ProtocolError;
+      return std::nullopt;
     }
     frame.opcode = static_cast<WsOpcode>(byte0 & 0x0F);
 
@@ -83,7 +106,8 @@ struct WebSocketFrame
     {
       if (payloadLen > 125 || !frame.fin)
       {
-        return std::nullopt; // protocol error — caller should close with 1002
+        status = WsParseStatus::ProtocolError; // caller should close with 1002
+        return std::nullopt;
       }
     }
 
@@ -98,6 +122,18 @@ struct WebSocketFrame
       if (data.size() < pos + 8) return std::nullopt;
       payloadLen = data.readU64BE(pos);
       pos += 8;
+      if ((payloadLen >> 63) != 0)
+      {
+        // RFC 6455 Section 5.2: the most significant bit MUST be 0
+        status = WsParseStatus::ProtocolError;
+        return std::nullopt;
+      }
+    }
+
+    if (payloadLen > maxPayload)
+    {
+      status = WsParseStatus::TooLarge;
+      return std::nullopt;
     }
 
     // Mask key (4 bytes if masked)
@@ -135,6 +171,7 @@ struct WebSocketFrame
 
     pos += static_cast<std::size_t>(payloadLen);
     consumed = pos;
+    status = WsParseStatus::Complete;
     return frame;
   }
 
